@@ -104,3 +104,5 @@ func clip(b []byte, n int) string {
 	}
 	return strings.ToValidUTF8(s, "?")
 }
+
+func lookPath(name string) (string, error) { return exec.LookPath(name) }
